@@ -82,7 +82,7 @@ func (s *TieredCompactionStrategy) selectL0Compaction() (*CompactionTask, error)
 	files := make([]*SSTableInfo, len(s.levels[0]))
 	copy(files, s.levels[0])
 	sort.Slice(files, func(i, j int) bool {
-		return files[i].Sequence < files[j].Sequence
+		return createdBefore(files[i], files[j])
 	})
 
 	// Take up to maxCompactFiles from L0
@@ -137,7 +137,7 @@ func (s *TieredCompactionStrategy) selectPromotionCompaction(level int) (*Compac
 	files := make([]*SSTableInfo, len(s.levels[level]))
 	copy(files, s.levels[level])
 	sort.Slice(files, func(i, j int) bool {
-		return files[i].Sequence < files[j].Sequence
+		return createdBefore(files[i], files[j])
 	})
 
 	// Select the oldest file
@@ -162,7 +162,7 @@ func (s *TieredCompactionStrategy) selectOverlappingCompaction(level int) (*Comp
 	files := make([]*SSTableInfo, len(s.levels[level]))
 	copy(files, s.levels[level])
 	sort.Slice(files, func(i, j int) bool {
-		return files[i].Sequence < files[j].Sequence
+		return createdBefore(files[i], files[j])
 	})
 
 	// Select an initial file from this level
